@@ -20,6 +20,7 @@ type faultPlan struct {
 	N         int   `json:"n"`
 	At        []int `json:"at"`
 	Permanent bool  `json:"permanent"`
+	How       string `json:"how"`
 }
 
 type ioVal struct {
@@ -82,42 +83,45 @@ func checkC29(c *Check) {
 	for _, wc := range wcases {
 		for vi, v := range c29Values() {
 			for _, stringWriter := range []bool{false, true} {
-				mk := func(failAt int, permanent bool) (io.Writer, *faultyWriter) {
+				mk := func(failAt int, permanent bool, how string) (io.Writer, *faultyWriter) {
 					if stringWriter {
-						w := &faultyStringWriter{faultyWriter{failAt: failAt, permanent: permanent}}
+						w := &faultyStringWriter{faultyWriter{failAt: failAt, permanent: permanent, how: how}}
 						return w, &w.faultyWriter
 					}
-					w := &faultyWriter{failAt: failAt, permanent: permanent}
+					w := &faultyWriter{failAt: failAt, permanent: permanent, how: how}
 					return w, w
 				}
-				w0, fw0 := mk(-1, false)
+				w0, fw0 := mk(-1, false, "")
 				if err := wc.f(v, w0); err != nil {
 					c.Note("%s value %d fails without faults: %v", wc.name, vi, err)
 					continue
 				}
 				total := fw0.calls
-				run := func(failAt int, permanent bool, how string) {
+				run := func(failAt int, permanent bool, transferred string, how string) {
 					if failAt >= total {
 						return
 					}
-					w, fw := mk(failAt, permanent)
+					how = how + ", having written " + transferred + " of the data"
+					w, fw := mk(failAt, permanent, transferred)
 					var err error
 					p, hung := runWithWatchdog(20*time.Second, func() { err = wc.f(v, w) })
-					c.Count(fmt.Sprint(wc.name, vi, stringWriter, failAt, permanent), failAt > 0)
+					c.Count(fmt.Sprint(wc.name, vi, stringWriter, failAt, permanent, transferred), failAt > 0)
 					c.AddTraces(1)
 					if p != nil || hung || err == nil {
 						c.Violation(fmt.Sprintf("%s (value %d, StringWriter=%v, %d Write calls): Write call #%d failed (%s) but the call returned err=%v panic=%v hang=%v; destination got %q",
 							wc.name, vi, stringWriter, total, failAt+1, how, err, p, hung, string(fw.buf)),
-							map[string]interface{}{"kind": "write-fault", "entry": wc.name, "value": vi, "string_writer": stringWriter, "fail_at": failAt, "permanent": permanent})
+							map[string]interface{}{"kind": "write-fault", "entry": wc.name, "value": vi, "string_writer": stringWriter, "fail_at": failAt, "permanent": permanent, "transferred": transferred})
 					}
 				}
 				for i := 0; i < total; i++ {
-					run(i, false, "once")
-					run(i, true, "and every later one")
+					for _, tr := range []string{"nothing", "partial", "all"} {
+						run(i, false, tr, "once")
+						run(i, true, tr, "and every later one")
+					}
 				}
 				for _, p := range plans {
 					if len(p.At) >= 1 {
-						run(p.At[0], p.Permanent, "TLC plan")
+						run(p.At[0], p.Permanent, p.How, "TLC plan")
 					}
 				}
 			}
@@ -149,20 +153,22 @@ func checkC29(c *Check) {
 				r0 := newScriptedReader(d.Doc, sched)
 				rc.f(r0)
 				total := len(r0.Calls)
-				for i := 0; i < total && i < 400; i++ {
+				for j := 0; j < 3*total && j < 1200; j++ {
+					i, how := j/3, []string{"nothing", "partial", "all"}[j%3]
 					rd := newScriptedReader(d.Doc, sched)
 					rd.failAt = i
+					rd.failHow = how
 					var err error
 					p, hung := runWithWatchdog(20*time.Second, func() { err = rc.f(rd) })
 					if len(rd.Calls) <= i {
 						continue // the call never got that far
 					}
-					c.Count(fmt.Sprint(rc.name, hex.EncodeToString(d.Doc), sched, i), i > 0)
+					c.Count(fmt.Sprint(rc.name, hex.EncodeToString(d.Doc), sched, i, how), i > 0)
 					c.AddTraces(1)
 					if p != nil || hung || err == nil {
-						c.Violation(fmt.Sprintf("%s on %s document %x (reads %v): Read call #%d failed with a non-EOF error but the call returned err=%v panic=%v hang=%v",
-							rc.name, d.Format, d.Doc, sched, i+1, err, p, hung),
-							map[string]interface{}{"kind": "read-fault", "entry": rc.name, "doc": hex.EncodeToString(d.Doc), "schedule": sched, "fail_at": i})
+						c.Violation(fmt.Sprintf("%s on %s document %x (reads %v): Read call #%d failed with a non-EOF error (delivering %s of the requested data with it) but the call returned err=%v panic=%v hang=%v",
+							rc.name, d.Format, d.Doc, sched, i+1, how, err, p, hung),
+							map[string]interface{}{"kind": "read-fault", "entry": rc.name, "doc": hex.EncodeToString(d.Doc), "schedule": sched, "fail_at": i, "delivered": how})
 					}
 				}
 			}
